@@ -230,7 +230,8 @@ def unit_mapaccess():
     m.ensures("result == len(self.mapping)")
     m = C.method("__getitem__", {"k": ANY}, STR)
     m.raises("RuntimeError", when="self.file == None")
-    m.raises("KeyError", when="self.file != None and not (k in self.mapping)")
+    # the handle may have been re-opened (after a fork) before the key is looked up: only the frame is promised on this exit
+    m.raises("KeyError", when="self.file != None and not (k in self.mapping)", ensures=["self.file != None and self.file.owner == cur_pid()"])
     m.modifies(*H)
     m.ensures("self.file != None and self.file.owner == cur_pid()", "read-through-a-handle-owned-by-this-process")
     m.ensures("forall(j, 0, fs().nl[self.path_to], implies(self.mapping[k] == fs().lstart[self.path_to][j] and self.file.kind == 1,"
